@@ -94,6 +94,13 @@ func TestC05(t *testing.T) {
 			if rapid.IntRange(0, 2).Draw(rt, "len1722?") == 0 {
 				n = rapid.IntRange(17, 22).Draw(rt, "ndigits2")
 			}
+			if rapid.IntRange(0, 5).Draw(rt, "alias?") == 0 {
+				// k*2^w + r: congruent to a small value modulo a power of two
+				v := new(big.Int).Lsh(big.NewInt(int64(rapid.IntRange(1, 1<<20).Draw(rt, "k"))), uint(rapid.IntRange(8, 520).Draw(rt, "w")))
+				v.Add(v, new(big.Int).SetUint64(splitmix(rapid.Uint64().Draw(rt, "r"))>>uint(rapid.IntRange(0, 63).Draw(rt, "rshift"))))
+				b = append(b, v.String()...)
+				n = 0
+			}
 			for i := 0; i < n; i++ {
 				b = append(b, byte('0'+rapid.IntRange(0, 9).Draw(rt, "d")))
 			}
@@ -103,6 +110,41 @@ func TestC05(t *testing.T) {
 				failRapid(rt, r, caseOf("C05", "digits", b, err), err)
 			}
 		})
+		// 2b. wrap-around aliases: k*M + r for moduli M at which an accumulator of some width (or a
+		// digit-count cut) would wrap, r an in-range value or a type bound
+		if e.enumStage("wraps", "k*M + r, both signs: M in {2^8 .. 2^512 (21 widths), 10^9 .. 10^40 (9 powers)} x k in {1, 2, 3, 5, 10, 255, 2^32+1, 10^19+3} x r in {0, 1, 7, 255, 2^31-1, 2^31, 2^32-1, 2^32, 2^63-1, 2^63, 2^64-1, 2^64, M-1, M/2}", true) {
+			var mods []*big.Int
+			for _, w := range []uint{8, 16, 24, 31, 32, 33, 48, 52, 53, 62, 63, 64, 65, 96, 127, 128, 129, 192, 255, 256, 512} {
+				mods = append(mods, new(big.Int).Lsh(big.NewInt(1), w))
+			}
+			for _, n := range []int64{9, 10, 17, 18, 19, 20, 21, 38, 40} {
+				mods = append(mods, new(big.Int).Exp(big.NewInt(10), big.NewInt(n), nil))
+			}
+			bigOf := func(s string) *big.Int { v, _ := new(big.Int).SetString(s, 10); return v }
+			ks := []*big.Int{big.NewInt(1), big.NewInt(2), big.NewInt(3), big.NewInt(5), big.NewInt(10), big.NewInt(255), bigOf("4294967297"), bigOf("10000000000000000003")}
+			rs := []*big.Int{big.NewInt(0), big.NewInt(1), big.NewInt(7), big.NewInt(255), bigOf("2147483647"), bigOf("2147483648"), bigOf("4294967295"), bigOf("4294967296"),
+				bigOf("9223372036854775807"), bigOf("9223372036854775808"), bigOf("18446744073709551615"), bigOf("18446744073709551616")}
+			idx := 0
+		wraps:
+			for _, M := range mods {
+				rr := append(append([]*big.Int{}, rs...), new(big.Int).Sub(M, big.NewInt(1)), new(big.Int).Rsh(M, 1))
+				for _, k := range ks {
+					for _, rem := range rr {
+						idx++
+						if !e.cfg.Mine(idx) {
+							continue
+						}
+						v := new(big.Int).Mul(k, M)
+						v.Add(v, rem)
+						for _, lit := range []string{v.String(), "-" + v.String(), v.String() + ",", " " + v.String() + "]"} {
+							if !run("wrap", []byte(lit)) {
+								break wraps
+							}
+						}
+					}
+				}
+			}
+		}
 		// 3. pool numbers and other tokens with every next byte
 		if e.enumStage("pool", "number pool and non-numeric tokens x 256 next bytes", true) {
 			toks := append([]string{}, gen.Nums...)
